@@ -27,11 +27,13 @@ func runC01(r *harness.Run) {
 		"F-genfor": genGenFor(th),
 		// failing operations inside statements spread over several lines (every token gap): on which line it fails
 		"F-faultline": genFaultLine(th),
+		// every placement of a few gotos and labels (two names) over nested and sibling blocks
+		"F-goto": genGoto(th),
 	}
-	order := []string{"F-assign", "F-tcons", "F-numfor", "F-genfor", "F-faultline", "F-cond", "F-ctrl", "F-expr"}
+	order := []string{"F-assign", "F-tcons", "F-numfor", "F-genfor", "F-faultline", "F-goto", "F-cond", "F-ctrl", "F-expr"}
 	r.Rule = "every program of the families F-assign (all multiple assignments/local declarations over 8 target kinds x 11 source kinds with aliasing), " +
 		"F-expr (all operator trees over a typed leaf alphabet x destination contexts x surrounding code), F-cond (boolean skeletons in value and branch position), " +
-		"F-ctrl (statement trees over if/while/repeat/for/break/goto/return), F-numfor (all start/limit/step triples), F-tcons (table constructors around the flush boundary) " +
+		"F-ctrl (statement trees over if/while/repeat/for/break/goto/return), F-goto (every placement of up to 3 (thorough: 4) goto/label statements over two names in 13 slots of a nest of blocks; validity decided by a transcription of the label rules: invalid programs must be refused by the loader, valid ones run like the reference), F-numfor (all start/limit/step triples), F-tcons (table constructors around the flush boundary) " +
 		"is rendered to text, run on gopher-lua and on the reference interpreter luaref; host-call trace, results, failure and failure line are compared. " +
 		"non-trivial = distinct program text whose reference trace contains a host call, a result or an error; programs the reference cannot decide (Lua 5.1 leaves the result open) are counted as indeterminate and not compared"
 	r.Assumptions = []string{
@@ -58,8 +60,11 @@ func exprPrelude() []Stat {
 		Local(names("up", "ups"), Num(7), Str("x")),
 		Assign([]Expr{Name("gnum"), Name("gstr")}, Num(4), Str("5")),
 		Local1("t", TableE(NamedField("x", Num(6)), NamedField("y", Str("k")), Pos1(Num(8)))),
-		LocalFunc("f1", Func(nil, false, Return(Num(9)))),
-		LocalFunc("f3", Func(nil, false, Return(Num(1), Num(2), Num(3)))),
+		// the helper callees are observable (a shared call counter goes to the host), so that a call
+		// which is skipped, repeated or made out of order shows in the trace
+		Local1("nc", Num(0)),
+		LocalFunc("f1", Func(nil, false, Assign1(Name("nc"), Bin("+", Name("nc"), Num(1))), Emit(Str("f1"), Name("nc")), Return(Num(9)))),
+		LocalFunc("f3", Func(nil, false, Assign1(Name("nc"), Bin("+", Name("nc"), Num(1))), Emit(Str("f3"), Name("nc")), Return(Num(1), Num(2), Num(3)))),
 	}
 }
 
